@@ -17,7 +17,7 @@ def triple_record(av, bv, cv, x, dts):
     ra, rb, rc, rax, rbx = ranks(av, bv, cv, sorted(av + [x]), sorted(bv + [x]))
     z = f32_fields(0.0)
     r = dict(a=ra, b=rb, c=rc, ax=rax, bx=rbx, dts=list(dts), ok=False, err='',
-             d={n: z for n in ('ab', 'ba', 'ac', 'ca', 'bc', 'cb', 'wab', 'wba', 'aug', 'pab', 'pac', 'mab', 'mac', 'maa', 'mbc', 'qab', 'qac')})
+             d={n: z for n in ('ab', 'ba', 'ac', 'ca', 'bc', 'cb', 'wab', 'wba', 'aug', 'pab', 'pac', 'mab', 'mac', 'maa', 'mbc', 'qab', 'qac', 'lab', 'lac', 'lbc', 'lbb')})
     try:
         A = np.array(av, dtype=dts[0]); B = np.array(bv, dtype=dts[1]); C = np.array(cv, dtype=dts[2])
         Aw = A.astype(WIDER[dts[0]]); Bw = B.astype(WIDER[dts[1]])
@@ -63,6 +63,9 @@ def triple_record(av, bv, cv, x, dts):
                 d['mab'] = dict(d['mab'], bad='index-selected columns disagree with each other')
         else:
             d['mab'] = d['ab']; d['mac'] = d['ac']; d['mbc'] = d['bc']
+        # two queries against the references given as a plain list, each array in ITS OWN integer type
+        lm = jaccarddist_matrix([A, B], [B, C])
+        d['lab'] = f32_fields(lm[0][0]); d['lac'] = f32_fields(lm[0][1]); d['lbb'] = f32_fields(lm[1][0]); d['lbc'] = f32_fields(lm[1][1])
         r['ok'] = True
     except Exception as e:
         r['err'] = type(e).__name__
@@ -113,6 +116,15 @@ class AllTriples(Fam):
             subs_s = [[small[i] for i in range(3) if (m >> i) & 1] for m in range(8)]
             for av in subs_w:
                 for bv, cv in itertools.product(subs_s, repeat=2):
+                    yield dict(a=av, b=bv, c=cv, x=3, dts=dts)
+        # the LAST set in a wider type than the first two (a reference list whose first element is the narrow one)
+        for dts, mod in ((('u2', 'u2', 'u4'), 1 << 16), (('u4', 'i4', 'u8'), 1 << 32)):
+            small = [0, 5, 9]
+            wide = small + [mod + v for v in small]
+            subs_w = [[wide[i] for i in range(6) if (m >> i) & 1] for m in range(64)]
+            subs_s = [[small[i] for i in range(3) if (m >> i) & 1] for m in range(8)]
+            for cv in subs_w:
+                for av, bv in itertools.product(subs_s, repeat=2):
                     yield dict(a=av, b=bv, c=cv, x=3, dts=dts)
 
 
